@@ -3,6 +3,7 @@ import Mieru.Gen.Facts
 import Mieru.Gen.FirstContact
 import Mieru.Proofs.Replay
 import Mieru.Proofs.ServerReplay
+import Mieru.Proofs.ReplayGen
 /-!
 # C06 — the replay cache never misses inside its bounds, never reports never-seen traffic
 
@@ -377,6 +378,18 @@ theorem isDuplicate_shape :
        "c.current[signature] = tag", "return false"] ∧
     Mieru.Gen.FirstContact.computeSignatureBody = ["hash := fnv.New64a()", "hash.Write(data)", "return hash.Sum64()"] := by
   refine ⟨by decide, by decide⟩
+
+/-- **Tie (T), full: the model IS the code as translated.**  `Mieru.Gen.ReplayGen.isDuplicate` is the
+    Go function translated statement by statement on every run (tools/goextract/replaytrans.go: the two
+    maps become association lists with Go's map semantics, `time.Now()` / `time.Since` read the
+    parameter `now`, the receiver is never nil, the body runs under the mutex).  For EVERY cache state,
+    item, tag and instant the hand-written model — the one every theorem of this file is about — returns
+    the same answer and the same new state.  A change of the Go function changes the regenerated
+    definition and breaks this proof (or makes the translator emit BROKEN-TIE). -/
+theorem isDuplicate_model_eq_gen (c : Cache) (data : List UInt8) (tag : Tag) (now : Nat) :
+    Mieru.Gen.ReplayGen.isDuplicate fnv1a64 (Mieru.Proofs.ReplayGen.toGen c) data tag (now : Int) =
+      (Mieru.Proofs.ReplayGen.toGen (isDuplicate c data tag now).1, (isDuplicate c data tag now).2) :=
+  Mieru.Proofs.ReplayGen.isDuplicate_eq_gen c data tag now
 
 /-! ## The three layers composed: cache + validity window + first contact
 
